@@ -574,7 +574,8 @@ def fam_conv_chain(rng, big=False):
 SINGLE_KINDS = ["conv", "dw", "fc", "maxpool", "avgpool", "add", "sub", "mul", "logistic", "tanh", "lrelu", "hswish",
                 "softmax", "mean", "resize_bilinear", "resize_nearest", "quantize", "tconv", "reshape", "pad", "pad_bc",
                 "slice", "concat", "minimum", "maximum", "relu", "abs", "add_bcast", "mul_scalar", "transpose", "transpose_c", "conv_head", "prelu",
-                "conv_dil", "dw_dil", "avgpool_s4", "split", "mul_max", "relu_chain", "slice_conv"]
+                "conv_dil", "dw_dil", "avgpool_s4", "split", "mul_max", "relu_chain", "slice_conv",
+                "mean_axis", "pool_big", "conv_stride_asym", "squeeze_expand", "ew16"]
 
 
 def fam_single_op(rng, kind=None):
@@ -663,6 +664,65 @@ def fam_single_op(rng, kind=None):
         if rng.random() < 0.3:
             net.output(y, t_)
             return net
+    elif kind == "mean_axis":
+        # MEAN over one or both spatial axes, with and without keeping the dimensions (different rewrites: average pool,
+        # depthwise convolution, reshaped variants)
+        hh, ww, cc = rng.choice([(4, 4), (7, 9), (1, 12), (12, 1), (16, 16), (3, 40), (20, 2)]) + (rng.choice([1, 3, 8, 16, 17]),)
+        x = _inp(net, rng, [1, hh, ww, cc], dt)
+        axes = rng.choice([(1,), (2,), (1, 2), (2, 1)])
+        y = mean(net, rng, x, axes, keep=rng.random() < 0.6)
+    elif kind == "pool_big":
+        # pooling windows beyond 8 (VALID only) and up to 8 with SAME padding, non-square, strides 1-3
+        pk = rng.choice(["MAX_POOL_2D", "AVERAGE_POOL_2D"])
+        if rng.random() < 0.5:
+            kh_, kw_ = rng.choice([(9, 9), (12, 3), (3, 12), (16, 16), (10, 1), (1, 10), (16, 2)])
+            hh, ww = kh_ + rng.randrange(0, 6), kw_ + rng.randrange(0, 6)
+            pm = "VALID"
+        else:
+            kh_, kw_ = rng.choice([(8, 8), (5, 7), (7, 5), (6, 6), (8, 1), (1, 8), (4, 8)])
+            hh, ww = rng.randrange(3, 14), rng.randrange(3, 14)
+            pm = "SAME"
+        x = _inp(net, rng, [1, hh, ww, rng.choice([1, 4, 8, 16])], dt)
+        st_ = rng.choice([(1, 1), (2, 2), (1, 2), (2, 1), (3, 3)])
+        y = pool(net, rng, x, pk, (kh_, kw_), st_, pm)
+    elif kind == "conv_stride_asym":
+        x = _inp(net, rng, [1, rng.randrange(4, 16), rng.randrange(4, 16), rng.choice([3, 4, 8, 16])], dt)
+        st_ = rng.choice([(2, 1), (1, 2), (3, 1), (1, 3), (3, 2), (2, 3)])
+        kk = rng.choice([(3, 3), (1, 1), (2, 2), (3, 1), (1, 3), (5, 5)])
+        if rng.random() < 0.6:
+            y = conv2d(net, rng, x, rng.choice([4, 8, 16]), kk, st_, (1, 1), rng.choice(["SAME", "VALID"]), rng.choice(["NONE", "RELU"]))
+        else:
+            y = depthwise(net, rng, x, kk, st_, (1, 1), rng.choice(["SAME", "VALID"]))
+    elif kind == "squeeze_expand":
+        # memory-only shape changes around NPU operators (SQUEEZE / EXPAND_DIMS / RESHAPE to other ranks)
+        cc = rng.choice([4, 8, 16])
+        ww = rng.randrange(2, 12)
+        x = _inp(net, rng, [1, 1, ww, cc], dt)
+        t_ = conv2d(net, rng, x, cc, (1, 1), (1, 1), (1, 1), "SAME", "NONE")
+        sq = net.tensor([1, ww, cc], dt, t_.scale, t_.zp)
+        net.op("SQUEEZE", [t_], [sq], dict(SqueezeDims=[1]))
+        if rng.random() < 0.5:
+            sq = elementwise(net, rng, "ADD", sq, const_like(net, rng, [1, 1, cc], dt), out_shape=[1, ww, cc])
+        a_ = rng.choice([1, 2])
+        ax = net.tensor([], "int32", None, None, [a_], name="expand_axis")
+        shp = [1, ww, cc]
+        shp.insert(a_, 1)
+        ex = net.tensor(shp, dt, sq.scale, sq.zp)
+        net.op("EXPAND_DIMS", [sq, ax], [ex], {})
+        y = unary(net, rng, "RELU", ex) if rng.random() < 0.5 else pool(net, rng, ex, "MAX_POOL_2D", (1, 1), (1, 1), "VALID")
+    elif kind == "ew16":
+        # 16-bit elementwise operators (add / sub / mul / min / max; symmetric quantisation as the reference requires)
+        hh, ww, cc = rng.randrange(1, 10), rng.randrange(1, 10), rng.choice([1, 4, 16])
+        x = net.input([1, hh, ww, cc], "int16", _rs(rng, 0.0001, 0.01), 0, name="input0")
+        b_ = net.input([1, hh, ww, cc], "int16", _rs(rng, 0.0001, 0.01), 0, name="input1") if rng.random() < 0.6 else \
+            net.tensor([1, 1, 1, cc], "int16", _rs(rng, 0.0001, 0.01), 0, _wdata(rng, [1, 1, 1, cc], "int16"))
+        kd = rng.choice(["ADD", "SUB", "MUL", "MINIMUM", "MAXIMUM"])
+        if kd in ("MINIMUM", "MAXIMUM"):
+            b_.scale = x.scale
+        y = elementwise(net, rng, kd, x, b_, out_shape=[1, hh, ww, cc])
+        y.zp = 0
+        if kd in ("MINIMUM", "MAXIMUM"):
+            y.scale = x.scale
     elif kind in ("softmax",):
         x = _inp(net, rng, [1, rng.choice([2, 10, 64, 100])] if rng.random() < 0.6 else [1, h, w, c], dt)
         y = unary(net, rng, "SOFTMAX", x, dict(Beta=1.0))
